@@ -87,8 +87,10 @@ def run_streams(ctx, mask, monitor, signature, streams, known=None):
             rng = ctx.case_rng(name, i)
             if kw.get('saturate'):
                 recipe = S.gen_saturate(rng, kw['saturate'], gen=name)
+            elif kw.get('branches'):
+                recipe = S.gen_branches(rng, kw['branches'], gen=name)
             elif kw.get('abandon'):
-                recipe = S.gen_abandon(rng, gen=name)
+                recipe = S.gen_abandon(rng, gen=name, algo=kw['abandon'] if isinstance(kw['abandon'], str) else 'overbook')
             else:
                 recipe = S.gen_sim(rng, gen=name, **kw)
             recipe['case_index'] = i
